@@ -132,6 +132,7 @@ pub struct Run {
     /// very first call into the crate, then the process exits
     pub cold: Option<usize>,
     pub pass_counter: usize,
+    pub cold_singles: usize,
 }
 
 impl Run {
@@ -161,6 +162,7 @@ impl Run {
             write_evidence: true,
             cold: None,
             pass_counter: 0,
+            cold_singles: 28,
         }
     }
 
@@ -372,7 +374,7 @@ impl Run {
             if !bin.exists() {
                 continue;
             }
-            for r in 0..(if prof == "checked" { 28usize } else { 10 }) {
+            for r in 0..(if prof == "checked" { self.cold_singles } else { 10 }) {
                 jobs.push((prof, bin.clone(), 1000 + r));
             }
         }
